@@ -1290,6 +1290,114 @@ static void wlExact(Ctx& c, int nexec, int len, int maxDim)
    }
 }
 
+// ---------------------------------------------------------------- C14: basis files
+static std::string fileTokens(const std::string& fn)
+{
+   std::ifstream in(fn); std::string line; std::ostringstream o; o << "["; bool first = true;
+   while(std::getline(in, line))
+   {
+      std::istringstream ls(line); std::string tok; std::ostringstream t; t << "["; bool f2 = true;
+      while(ls >> tok) { t << (f2 ? "" : ",") << jstr(tok); f2 = false; }
+      t << "]"; o << (first ? "" : ",") << t.str(); first = false;
+   }
+   o << "]"; return o.str();
+}
+static std::string g_tmpdir;
+static void basisFileRoundTrip(Ctx& c, int o)
+{
+   SoPlex& s = *c.objs[o]; int nr = s.numRows(), nc = s.numCols();
+   if(!s.hasBasis()) return;
+   bool userNames = c.rng.coin(), cpx = c.rng.coin(1, 3);
+   NameSet rn, cn; std::vector<std::string> rnames, cnames;
+   for(int i = 0; i < nr; i++) { std::string n = userNames ? "R" + std::to_string(i) + "x" : "C" + std::to_string(i); rnames.push_back(n); if(userNames) rn.add(n.c_str()); }
+   for(int j = 0; j < nc; j++) { std::string n = userNames ? "V" + std::to_string(j) + "y" : "x" + std::to_string(j); cnames.push_back(n); if(userNames) cn.add(n.c_str()); }
+   std::string fn = g_tmpdir + "/b" + std::to_string(c.rng.R(0, 1 << 30)) + ".bas";
+   pending() = "writeBasisFile";
+   bool wret = s.writeBasisFile(fn.c_str(), userNames ? &rn : nullptr, userNames ? &cn : nullptr, cpx);
+   std::string toks = fileTokens(fn);
+   auto names = [&](const std::vector<std::string>& v) { return jarr((int)v.size(), [&](int i) { return jstr(v[i]); }); };
+   // read into a NEW object holding the same LP
+   {
+      int id = c.nextId++; c.objs[id].reset(new SoPlex()); c.noInternal[id] = false; c.modsSinceBasis[id] = 0;
+      SoPlex& f = *c.objs[id]; f.setIntParam(SoPlex::VERBOSITY, 0);
+      { J ev; ev.s("a", "create").i("o", id); emit(c, id, ev); }
+      f.setSettings(s.settings());
+      { J g; g.i("sense", f.intParam(SoPlex::OBJSENSE)).q("offset", f.realParam(SoPlex::OBJ_OFFSET)).q("ftol", f.realParam(SoPlex::FEASTOL)).q("otol", f.realParam(SoPlex::OPTTOL))
+           .i("iterlimit", f.intParam(SoPlex::ITERLIMIT)).b("ensureray", f.boolParam(SoPlex::ENSURERAY)).i("sync", f.intParam(SoPlex::SYNCMODE)).q("epsz", f.realParam(SoPlex::EPSILON_ZERO))
+           .q("tlimit", f.realParam(SoPlex::TIMELIMIT)).q("objlo", f.realParam(SoPlex::OBJLIMIT_LOWER)).q("objup", f.realParam(SoPlex::OBJLIMIT_UPPER));
+        J ev; ev.s("a", "setSettingsFrom").i("o", id).i("src", o).raw("g", g.str()); emit(c, id, ev); }
+      for(int j = 0; j < nc; j++) { DSVector e; f.addColReal(LPCol(s.objReal(j), e, s.upperReal(j), s.lowerReal(j))); modEvent(c, id, "addCol", colJson(s.objReal(j), s.lowerReal(j), "[]", s.upperReal(j))); }
+      for(int i = 0; i < nr; i++) { DSVector r; s.getRowVectorReal(i, r); f.addRowReal(LPRow(s.lhsReal(i), r, s.rhsReal(i))); modEvent(c, id, "addRow", rowJson(s.lhsReal(i), spReal(r), s.rhsReal(i))); }
+      pending() = "readBasisFile(new object)";
+      bool rret = f.readBasisFile(fn.c_str(), userNames ? &rn : nullptr, userNames ? &cn : nullptr);
+      c.modsSinceBasis[id] = 0;
+      J ev; ev.s("a", "basisFile").i("o", id).i("src", o).b("cpx", cpx).b("userNames", userNames).b("wret", wret).b("rret", rret)
+         .raw("file", toks).raw("rnames", names(rnames)).raw("cnames", names(cnames));
+      emit(c, id, ev);
+      queryBasis(c, id);
+      if(c.rng.coin()) { SolveOpts so; so.complete = false; optimize(c, id, so); }      // started from the restored basis: same verdict (memo)
+      destroyObj(c, id);
+   }
+   // read back into the SAME object
+   {
+      pending() = "readBasisFile(same object)";
+      bool rret = s.readBasisFile(fn.c_str(), userNames ? &rn : nullptr, userNames ? &cn : nullptr);
+      c.modsSinceBasis[o] = 0;
+      J ev; ev.s("a", "basisFile").i("o", o).i("src", o).b("cpx", cpx).b("userNames", userNames).b("wret", wret).b("rret", rret)
+         .raw("file", toks).raw("rnames", names(rnames)).raw("cnames", names(cnames));
+      emit(c, o, ev);
+   }
+   remove(fn.c_str());
+}
+// state files: LP (.mps), basis (.bas) and settings (.set) written by writeStateReal and loaded into a NEW object
+static void stateRoundTrip(Ctx& c, int o)
+{
+   SoPlex& s = *c.objs[o]; int nr = s.numRows(), nc = s.numCols();
+   if(!s.hasBasis()) return;
+   bool userNames = c.rng.coin();
+   NameSet rn, cn;
+   for(int i = 0; i < nr; i++) { std::string n = "R" + std::to_string(i) + "x"; if(userNames) rn.add(n.c_str()); }
+   for(int j = 0; j < nc; j++) { std::string n = "V" + std::to_string(j) + "y"; if(userNames) cn.add(n.c_str()); }
+   std::string base = g_tmpdir + "/st" + std::to_string(c.rng.R(0, 1 << 30));
+   pending() = "writeStateReal";
+   std::string pdigSrc = paramsDigest(s);
+   s.writeStateReal(base.c_str(), userNames ? &rn : nullptr, userNames ? &cn : nullptr, false, true);
+   int id = c.nextId++; c.objs[id].reset(new SoPlex()); c.noInternal[id] = true; c.modsSinceBasis[id] = 0;
+   SoPlex& f = *c.objs[id]; f.setIntParam(SoPlex::VERBOSITY, 0);
+   pending() = "load state files";
+   bool r1 = f.loadSettingsFile((base + ".set").c_str()); f.setIntParam(SoPlex::VERBOSITY, 0);
+   NameSet rn2, cn2;
+   bool r2 = f.readFile((base + ".mps").c_str(), &rn2, &cn2);
+   bool r3 = f.readBasisFile((base + ".bas").c_str(), &rn2, &cn2);
+   J ev; ev.s("a", "stateFile").i("o", id).i("src", o).b("userNames", userNames).b("rset", r1).b("rlp", r2).b("rbas", r3).s("pdigSrc", pdigSrc).s("pdigNew", paramsDigest(f))
+      .i("nRowNames", rn2.num()).i("nColNames", cn2.num());
+   emit(c, id, ev);
+   queryBasis(c, id);
+   { SolveOpts so; so.complete = false; optimize(c, id, so); }
+   destroyObj(c, id);
+   remove((base + ".set").c_str()); remove((base + ".mps").c_str()); remove((base + ".bas").c_str());
+}
+static void wlBasFile(Ctx& c, int nexec, int len)
+{
+   for(int e = 0; e < nexec; e++)
+   {
+      T().line("{\"a\":\"Reset\"}");
+      c.objs.clear(); c.nextId = 0;
+      int o = createObj(c);
+      if(c.rng.coin()) fullConfig(c, o);
+      LPData L = genWitnessed(c.rng, 5, c.rng.coin(3, 4) ? "OPT" : (c.rng.coin() ? "INF" : "UNB"), 0);
+      loadLP(c, o, L, false);
+      for(int step = 0; step < len; step++)
+      {
+         int k = c.rng.R(0, 99);
+         if(k < 40) { SolveOpts so; so.complete = false; if(c.rng.coin(1, 4)) { setInt(c, o, "ITERLIMIT", SoPlex::ITERLIMIT, c.rng.R(0, 2)); so.limited = true; }
+                      optimize(c, o, so); if(so.limited) setInt(c, o, "ITERLIMIT", SoPlex::ITERLIMIT, -1); basisFileRoundTrip(c, o); if(c.rng.coin()) stateRoundTrip(c, o); }
+         else if(k < 90) { setRandomBasis(c, o); basisFileRoundTrip(c, o); if(c.rng.coin(1, 3)) stateRoundTrip(c, o); }
+         else { clearBasis(c, o); }
+      }
+   }
+}
+
 // C04: every point of a history at which hasBasis() is true; set/read back; transplant into a new object
 static void wlBasis(Ctx& c, int nexec, int len)
 {
@@ -1319,34 +1427,64 @@ static void wlBasis(Ctx& c, int nexec, int len)
    }
 }
 
+static int runWorkload(Ctx& c, const std::string& wl, int len)
+{
+   if(wl == "mods") wlMods(c, 1, len, 0);
+   else if(wl == "mods2") wlMods(c, 1, len, 1);
+   else if(wl == "certx") { g_exotic = true; wlCert(c, 1, len, 5, 0); }
+   else if(wl == "certbigx") { g_exotic = true; wlCert(c, 1, len, 14, 0); }
+   else if(wl == "cert") wlCert(c, 1, len, 5, 0);
+   else if(wl == "cert2") wlCert(c, 1, len, 5, 0, 1);
+   else if(wl == "certbig2") wlCert(c, 1, len, 14, 0, 1);
+   else if(wl == "basis") wlBasis(c, 1, len);
+   else if(wl == "sync") wlSync(c, 1, len);
+   else if(wl == "copy") wlCopy(c, 1, len);
+   else if(wl == "basfile") wlBasFile(c, 1, len);
+   else if(wl == "exact") wlExact(c, 1, len, 5);
+   else if(wl == "exactbig") wlExact(c, 1, len, 12);
+   else if(wl == "binv") wlBinv(c, 1, len);
+   else if(wl == "scale") wlScale(c, 1, len);
+   else if(wl == "scalerbare") wlScalerBare(c, 1, len);
+   else if(wl == "limits") wlLimits(c, 1, len, 6);
+   else if(wl == "limitsbig") wlLimits(c, 1, len, 14);
+   else if(wl == "certbig") wlCert(c, 1, len, 14, 0);
+   else if(wl == "certscaled") wlCert(c, 1, len, 6, 12);
+   else { fprintf(stderr, "unknown workload %s\n", wl.c_str()); return 2; }
+   return 0;
+}
+
+// every execution runs in its own child process: a crash ends that execution (its trace ends in a Crash line)
+// but not the remaining executions of the shard
+#include <sys/wait.h>
 int main(int argc, char** argv)
 {
    if(argc < 6) { fprintf(stderr, "usage: api_drv <workload> <seed> <nexec> <len> <out>\n"); return 2; }
    std::string wl = argv[1]; unsigned long seed = strtoul(argv[2], nullptr, 10);
    int nexec = atoi(argv[3]), len = atoi(argv[4]);
-   T().open(argv[5]);
-   installCrashHandlers();
-   Ctx c(seed);
-   if(wl == "mods") wlMods(c, nexec, len, 0);
-   else if(wl == "mods2") wlMods(c, nexec, len, 1);
-   else if(wl == "certx") { g_exotic = true; wlCert(c, nexec, len, 5, 0); }
-   else if(wl == "certbigx") { g_exotic = true; wlCert(c, nexec, len, 14, 0); }
-   else if(wl == "cert") wlCert(c, nexec, len, 5, 0);
-   else if(wl == "cert2") wlCert(c, nexec, len, 5, 0, 1);
-   else if(wl == "certbig2") wlCert(c, nexec, len, 14, 0, 1);
-   else if(wl == "basis") wlBasis(c, nexec, len);
-   else if(wl == "sync") wlSync(c, nexec, len);
-   else if(wl == "copy") wlCopy(c, nexec, len);
-   else if(wl == "exact") wlExact(c, nexec, len, 5);
-   else if(wl == "exactbig") wlExact(c, nexec, len, 12);
-   else if(wl == "binv") wlBinv(c, nexec, len);
-   else if(wl == "scale") wlScale(c, nexec, len);
-   else if(wl == "scalerbare") wlScalerBare(c, nexec, len);
-   else if(wl == "limits") wlLimits(c, nexec, len, 6);
-   else if(wl == "limitsbig") wlLimits(c, nexec, len, 14);
-   else if(wl == "certbig") wlCert(c, nexec, len, 14, 0);
-   else if(wl == "certscaled") wlCert(c, nexec, len, 6, 12);
-   else { fprintf(stderr, "unknown workload %s\n", wl.c_str()); return 2; }
-   T().close();
+   g_tmpdir = std::string(argv[5]) + ".d"; { std::string cmd = "mkdir -p '" + g_tmpdir + "'"; if(system(cmd.c_str()) != 0) return 2; }
+   { FILE* f = fopen(argv[5], "w"); if(!f) { perror(argv[5]); return 2; } fclose(f); }
+   bool nofork = getenv("VERIF_NOFORK") != nullptr;
+   for(int e = 0; e < nexec; e++)
+   {
+      pid_t pid = nofork ? 0 : fork();
+      if(pid == 0)
+      {
+         T().f = fopen(argv[5], "a"); if(!T().f) _exit(2);
+         installCrashHandlers();
+         Ctx c(seed * 1000003UL + (unsigned long)e);
+         int rc = runWorkload(c, wl, len);
+         T().close();
+         if(!nofork) _exit(rc);
+         if(rc) return rc;
+      }
+      else if(pid > 0)
+      {
+         int status = 0; waitpid(pid, &status, 0);
+         if(WIFEXITED(status) && WEXITSTATUS(status) == 2) return 2;
+         if(WIFSIGNALED(status)) { FILE* f = fopen(argv[5], "a"); if(f) { fprintf(f, "{\"a\":\"Crash\",\"what\":\"killed by signal %d\",\"during\":\"\"}\n", WTERMSIG(status)); fclose(f); } }
+      }
+      else return 2;
+   }
+   { std::string cmd = "rm -rf '" + g_tmpdir + "'"; (void)!system(cmd.c_str()); }
    return 0;
 }
